@@ -9,7 +9,8 @@ import Nstd.Hash.Props
   equal those of the insertion-ordered association list (`gen_refines`), for every container kind, hash function, pair of
   capacities and block size.  Also translated: `operator=` , HashSet `append(other)` / `remove(other)`, `operator==` (and `!=` as its negation).
   Not translated (hand-translated in `PtrModel.lean`, tied by the correspondence run): the constructors incl. the copy
-  constructor, the self-argument members (`a.swap(a)`, `a.append(a)`, `a.remove(a)`), `setValue`, the iterator walks of the queries.
+  constructor, `setValue`, the iterator walks of the queries.  The self-argument members (`a = a`, `a.swap(a)`, `a.append(a)`,
+  `a.remove(a)`) are the same bodies translated with `other.x` = `x`.
 -/
 set_option linter.unusedSimpArgs false
 set_option linter.unusedVariables false
@@ -181,6 +182,25 @@ theorem gstep_eq_pstep (kind : Kind) (h : Nat → Nat) (ps : PState) (s : State)
     simp only [gstep, pstep, hav, Bool.not_true, Bool.false_eq_true, if_false]
     cases kind <;> simp only [gEqual, gen_map_equal, gen_set_equal, Option.map_map] <;>
       (cases PTable.equal _ (ps.get t) (ps.get u) <;> rfl)
+  | assignSelf t =>
+    have e : ps.set t (ps.get t) = ps := by cases t <;> rfl
+    simp only [gstep, pstep, hav, Bool.not_true, Bool.false_eq_true, if_false]
+    cases kind <;> simp [optSet, gen_map_assignSelf, gen_set_assignSelf, e]
+  | swapSelf t =>
+    simp only [gstep, pstep, hav, Bool.not_true, Bool.false_eq_true, if_false]
+    cases kind <;> simp [optSet, gen_map_swapSelf, gen_set_swapSelf, gen_pool_swapSelf]
+  | appendSelf t =>
+    obtain ⟨hr, hself⟩ := hp.get t
+    simp only [gstep, pstep, hav, Bool.not_true, Bool.false_eq_true, if_false]
+    by_cases hk : kind = Kind.set
+    · subst hk; simp only [if_true, gen_set_appendSelf hr (hs.get t)]
+    · simp only [hk, if_false]
+  | removeSelf t =>
+    obtain ⟨hr, hself⟩ := hp.get t
+    simp only [gstep, pstep, hav, Bool.not_true, Bool.false_eq_true, if_false]
+    by_cases hk : kind = Kind.set
+    · subst hk; simp only [if_true, gen_set_removeSelf hr (hs.get t)]
+    · simp only [hk, if_false]
   | _ => simp [gstep, hav]
 /-- … hence every run from a represented state: the same final state, the same results, rejected iff the model rejects. -/
 theorem grun_eq_prun (kind : Kind) (h : Nat → Nat) (ops : List Op) (ps : PState) (s : State) (hp : PRel ps s) (hs : SInv h s) :
